@@ -352,8 +352,7 @@ where
         check_len(it, m, info)
     } else if on(OP_FOR_EACH) {
         {
-            let n: usize = kani::any();
-            kani::assume(n >= 1 && n <= info.nmax);
+            let n: usize = loop_chunk(info);
             it.for_each(n, |v| {
                 let p = f(v);
                 m.on_some(p, 1);
@@ -362,8 +361,7 @@ where
         }
     } else if on(OP_ENUM_FOR_EACH) {
         {
-            let n: usize = kani::any();
-            kani::assume(n >= 1 && n <= info.nmax);
+            let n: usize = loop_chunk(info);
             it.enumerate_for_each(n, |i, v| {
                 let p = f(v);
                 assert!(
@@ -376,8 +374,7 @@ where
         }
     } else if on(OP_FOLD) {
         {
-            let n: usize = kani::any();
-            kani::assume(n >= 1 && n <= info.nmax);
+            let n: usize = loop_chunk(info);
             let before = m.pos;
             let skipped = m.skipped;
             let sum = it.fold(n, 0usize, |a, v| {
@@ -395,6 +392,22 @@ where
             assert!(sum == want, "C12: fold result differs from the sequential fold");
             loops_done(it, m, n);
         }
+    }
+}
+
+/// Chunk size of for_each / enumerate_for_each / fold: symbolic in [1, nmax], or - when the kind allocates
+/// `chunk_size` buffer slots (nbuf > 0) - one of the two concrete values {1, nbuf} (both code paths).
+fn loop_chunk(info: &KindInfo) -> usize {
+    if info.nbuf > 0 {
+        if kani::any() {
+            1
+        } else {
+            info.nbuf
+        }
+    } else {
+        let n: usize = kani::any();
+        kani::assume(n >= 1 && n <= info.nmax);
+        n
     }
 }
 
